@@ -16,8 +16,11 @@ form `Spec.urlNorm` that the C03 monitor evaluates on the implementation (`key_i
 the percent-encoding normal form is the RFC one for EVERY byte string (`pct_norm_is_rfc`), only
 ASCII unreserved bytes are ever decoded (`unreserved_is_ascii`); the method / Range gate
 (`method_gate`); every exchange looks up the index under the request's URL key
-(`lookup_uses_url_key`). Not carried by a theorem: url.Parse, ResolveReference and dot-segment removal
-(stdlib; the model receives their results — correspondence, grammar-generated URL pairs); hosts that
+(`lookup_uses_url_key`). Dot segments are removed by the keyer itself after percent-encoding is
+normalised ("%2e" is a dot; internal/urlkeyer.go removeDotSegments, modelled as `removeDotSegments`,
+RFC 3986 §5.2.4 — see the repair recorded in known_findings.json), so they are inside the theorems. Not
+carried by a theorem: url.Parse and EscapedPath (stdlib; the model receives their results —
+correspondence, grammar-generated URL pairs); hosts that
 are not RFC 3986 hosts (a reg-name containing ':' such as "a:80:443", which url.Parse accepts) are
 excluded by `WFUrl.hostNoPort`: for those "https://a:80:443/" and "https://a:80/" do share a key, in
 the code and in `Spec.urlNorm` alike (both read the last ":digits" as the port).
@@ -92,7 +95,7 @@ theorem lookup_uses_url_key (cfg : Cfg) (t0 : Int) (req : Req) (tr : List Step) 
 theorem same_key_iff_equivalent (s1 h1 p1 q1 s2 h2 p2 q2 : Str) (w1 : WFUrl s1 h1 p1 q1) (w2 : WFUrl s2 h2 p2 q2) :
     makeURLKeyOf s1 h1 p1 q1 [] = makeURLKeyOf s2 h2 p2 q2 [] ↔
     (s1 = s2 ∧ keyHost h1 = keyHost h2 ∧ effPort s1 h1 = effPort s2 h2 ∧
-     normalizePercentEncoding (keyPath s1 p1) = normalizePercentEncoding (keyPath s2 p2) ∧
+     keyPath s1 p1 = keyPath s2 p2 ∧
      normalizePercentEncoding q1 = normalizePercentEncoding q2) := by
   constructor
   · exact key_injective _ _ _ _ _ _ _ _ w1 w2
@@ -126,5 +129,15 @@ example : normalizePercentEncoding (str% "q=%e9%7e%2f") = (str% "q=%E9~%2F") := 
 example : makeURLKeyOf (str% "http") (str% "[::1]:8080") (str% "/") [] [] ≠
           makeURLKeyOf (str% "http") (str% "[::1:8080]") (str% "/") [] [] := by decide
 example : makeURLKeyOf (str% "http") (str% "A.test:80") [] [] [] = (str% "http://a.test/") := by decide
+
+/-- dot segments: an encoded dot is a dot (RFC 3986 §6.2.2.2 before §6.2.2.3), ".." above the root is
+    dropped without swallowing the empty segment that follows it — the defects of the pinned keyer
+    (which ran url.ResolveReference before decoding "%2e", and let it read "/..//a" as "/a") -/
+example : makeURLKeyOf (str% "https") (str% "a.test") (str% "/a/%2e%2E/b") [] [] =
+    makeURLKeyOf (str% "https") (str% "a.test") (str% "/b") [] [] := by decide
+example : makeURLKeyOf (str% "https") (str% "a.test") (str% "/a/%2e/b/.") [] [] =
+    makeURLKeyOf (str% "https") (str% "a.test") (str% "/a/b/") [] [] := by decide
+example : makeURLKeyOf (str% "https") (str% "a.test") (str% "/..//a") [] [] ≠
+    makeURLKeyOf (str% "https") (str% "a.test") (str% "/a") [] [] := by decide
 
 end Httpcache.C03
